@@ -40,6 +40,15 @@ def descriptors(tier):
                 continue
             out.append({"kind": "slab", "name": name, "facet": f, "layers": 3 + (kp // 4) % 2, "n_ads": 2, "ads": ["H", "O", "N"][kp % 3],
                         "placement": ["half_a", "half_b", "half_diag"][kp % 3], "i": 7000 + kp})
+    # adsorbates on lattice continuation sites (where the next layer's atoms would sit: hollow sites at the bulk bond length)
+    kc = 0
+    for name, f in [("Cu", (1, 1, 1)), ("Al", (1, 0, 0)), ("Fe", (1, 0, 0)), ("Mg", (0, 0, 1)), ("Si", (1, 1, 1)), ("ZnO", (0, 0, 1)), ("NaCl", (1, 0, 0)),
+                    ("MgO", (1, 1, 0)), ("Ag", (1, 1, 0)), ("Ti", (0, 0, 1))]:
+        kc += 1
+        if tier == "quick" and kc % 2:
+            continue
+        out.append({"kind": "slab", "name": name, "facet": f, "layers": 3 + kc % 2, "n_ads": 1 + kc % 2, "ads": ["Cd", "Au", "S"][kc % 3],
+                    "placement": "continuation", "i": 8000 + kc})
     for mi, name in enumerate(["graphene", "BN", "MoS2-2H", "MoS2-1T", "WSe2-2H", "TiS2-1T"]):
         for size in ((3, 5) if tier == "quick" else (3, 4, 5, 6)):
             out.append({"kind": "mono", "name": name, "size": size, "i": 5000 + mi * 10 + size})
@@ -57,11 +66,12 @@ def execute(job):
         placement = desc.get("placement", "random")
         # rectangular lateral supercells (one more repeat along a) for every third descriptor; commensurate pairs need an even
         # number of repeats along the pair's direction, so further repeats are tried until the two top sites exist
-        extras = [(1, 0) if desc["i"] % 3 == 0 else (0, 0)] if placement == "random" else [(0, 0), (1, 0), (0, 1), (1, 1)]
+        extras = [(1, 0) if desc["i"] % 3 == 0 else (0, 0)] if placement in ("random", "continuation") else [(0, 0), (1, 0), (0, 1), (1, 1)]
         ads = None
         for extra in extras:
             try:
-                a = crystalfam.slab(desc["name"], desc["facet"], desc["layers"], True, rng, min_lateral=9.0, extra=extra)
+                a = crystalfam.slab(desc["name"], desc["facet"], desc["layers"] + (1 if placement == "continuation" else 0), True, rng,
+                                    min_lateral=9.0, extra=extra)
             except Exception as e:
                 return {"skip": "builder failed: %s" % e}
             if a is None:
@@ -73,6 +83,23 @@ def execute(job):
                 return {"skip": why}
             if desc["ads"] in a.get_chemical_symbols():
                 return {"skip": "adsorbate species present in the slab"}
+            if placement == "continuation":
+                # the slab was built one layer too thick: its top atomic plane is removed and some of its sites are re-occupied by
+                # the foreign species
+                top = a.positions[:, 2].max()
+                plane = [i for i in range(len(a)) if a.positions[i, 2] > top - 0.3]
+                sites = a.positions[[int(i) for i in rng.choice(plane, desc["n_ads"], replace=False)]].copy()
+                del a[plane]
+                from ase import Atom
+
+                ads = []
+                for p_ in sites:
+                    a.append(Atom(desc["ads"], position=p_))
+                    ads.append(len(a) - 1)
+                ok, why = crystalfam.precondition(a[[i for i in range(len(a)) if i not in ads]], 2, check_heights=False)
+                if not ok:
+                    return {"skip": why}
+                break
             ads = crystalfam.add_adsorbates(a, desc["n_ads"], desc["ads"], rng, placement=placement)
             if ads is not None:
                 break
